@@ -230,6 +230,7 @@ func checkC11(c *Ctx) {
 		return
 	}
 	builtinRules(c, ref.C11, &ref, "C11")
+	subjectOpaque(c, ref.C11, "C11")
 	r.Floor("EFFECT-SIG", 15)
 	r.Floor("RETURNS", 30)
 	r.Floor("MISSING-NOOP", 6)
@@ -300,6 +301,7 @@ func checkC12(c *Ctx) {
 		return
 	}
 	builtinRules(c, ref.C12, &ref, "C12")
+	subjectOpaque(c, ref.C12, "C12")
 	r.Floor("EFFECT-SIG", 6)
 	// the engines are used through objects created per call (or immutable ones): no state of an earlier point
 	{
@@ -960,4 +962,138 @@ func retAppendCount(g *ssa.Function, depth int) int {
 	}
 	retAppendMemo[g] = res
 	return res
+}
+
+// subjectOpaque (shared by C11 and C12): a builtin acts on its subject whenever the key exists — whether it exists
+// is what the lookup's *error* says. The text the lookup returns is for the engine (pattern, XPath, time, SQL, trim,
+// …) and for nobody else: rule SUBJECT-OPAQUE — in the functions reachable from the property's builtins inside the
+// builtin package, result #0 of Task.GetKeyConv2Str (followed through phis, conversions, substrings, len(), and the
+// results of same-package helpers that return it) is never an operand of a comparison. A comparison such as
+// `cont != ""` makes "exists but empty" look like "absent": grok would answer false without asking the pattern,
+// default_time would drop its failure note.
+func subjectOpaque(c *Ctx, names []string, prop string) {
+	r, t := c.R, c.T
+	lookup := t.Method(pRT, "Task", "GetKeyConv2Str")
+	if lookup == nil {
+		r.Undecided("SUBJECT-OPAQUE", "runtime.Task.GetKeyConv2Str", "", "unresolved anchor")
+		return
+	}
+	run, _ := registryMaps(t)
+	var roots []*ssa.Function
+	for _, name := range names {
+		if f := run[name]; f != nil {
+			roots = append(roots, f)
+		}
+	}
+	sc, _ := reach(t, roots, nil)
+	var fns []*ssa.Function
+	for f := range sc {
+		if f.Pkg != nil && f.Pkg.Pkg.Path() == pFuncs {
+			fns = append(fns, f)
+		}
+	}
+	sortFuncs(fns)
+	tainted := map[ssa.Value]bool{}
+	taintedRes := map[*ssa.Function]map[int]bool{}
+	changed := true
+	mark := func(v ssa.Value) {
+		if v != nil && !tainted[v] {
+			tainted[v] = true
+			changed = true
+		}
+	}
+	for iter := 0; changed && iter < 10; iter++ {
+		changed = false
+		for _, f := range fns {
+			allInstrs(f, func(in ssa.Instruction) {
+				switch x := in.(type) {
+				case *ssa.Extract:
+					if call, ok := x.Tuple.(*ssa.Call); ok {
+						cal := call.Call.StaticCallee()
+						if cal == lookup && x.Index == 0 {
+							mark(x)
+						}
+						if cal != nil && taintedRes[cal][x.Index] {
+							mark(x)
+						}
+					}
+				case *ssa.Call:
+					cal := x.Call.StaticCallee()
+					if cal != nil && x.Call.Signature().Results().Len() == 1 && taintedRes[cal][0] {
+						mark(x)
+					}
+					if b, ok := x.Call.Value.(*ssa.Builtin); ok && b.Name() == "len" && len(x.Call.Args) == 1 && tainted[x.Call.Args[0]] {
+						mark(x)
+					}
+				case *ssa.Phi:
+					for _, e := range x.Edges {
+						if tainted[e] {
+							mark(x)
+						}
+					}
+				case *ssa.Convert:
+					if tainted[x.X] {
+						mark(x)
+					}
+				case *ssa.ChangeType:
+					if tainted[x.X] {
+						mark(x)
+					}
+				case *ssa.Slice:
+					if tainted[x.X] {
+						mark(x)
+					}
+				case *ssa.Lookup:
+					if tainted[x.X] {
+						mark(x)
+					}
+				case *ssa.BinOp:
+					if x.Op == token.ADD && (tainted[x.X] || tainted[x.Y]) {
+						mark(x)
+					}
+				case *ssa.Return:
+					for i, res := range x.Results {
+						if tainted[res] {
+							if taintedRes[f] == nil {
+								taintedRes[f] = map[int]bool{}
+							}
+							if !taintedRes[f][i] {
+								taintedRes[f][i] = true
+								changed = true
+							}
+						}
+					}
+				}
+			})
+		}
+	}
+	n := 0
+	for _, f := range fns {
+		has := false
+		var bad []string
+		allInstrs(f, func(in ssa.Instruction) {
+			if v, ok := in.(ssa.Value); ok && tainted[v] {
+				has = true
+			}
+			if bo, ok := in.(*ssa.BinOp); ok {
+				switch bo.Op {
+				case token.EQL, token.NEQ, token.LSS, token.LEQ, token.GTR, token.GEQ:
+					if tainted[bo.X] || tainted[bo.Y] {
+						bad = append(bad, fmt.Sprintf("%s %s %s at %s", path(bo.X), bo.Op, path(bo.Y), t.Pos(bo.Pos())))
+					}
+				}
+			}
+		})
+		if !has {
+			continue
+		}
+		n++
+		r.Fn(relName(f))
+		why := "the subject's string form only flows into calls, stores and results"
+		if len(bad) > 0 {
+			why = "the subject's text is inspected: " + strings.Join(bad, "; ") + " — whether the builtin acts must depend on the key's presence (the lookup's error) alone: an existing but empty subject is still a subject"
+		}
+		r.Ob("SUBJECT-OPAQUE", relName(f)+" never branches on the subject's text", t.Pos(f.Pos()), len(bad) == 0, why)
+	}
+	r.Extra["subject_opaque_functions_"+prop] = n
 }
